@@ -55,7 +55,20 @@ type Toy struct {
 	Mark    string
 }
 
+// Node references itself through a many2many relation: records can be shared
+// (reachable over several paths) inside one operation.
+type Node struct {
+	ID    uint
+	Name  string
+	Note  string
+	Stamp string
+	Mark  string
+	Peers []*Node `gorm:"many2many:node_peers"`
+}
+
 const schemaSQL = `
+CREATE TABLE nodes (id integer primary key autoincrement, name text, note text, stamp text, mark text);
+CREATE TABLE node_peers (node_id integer, peer_id integer, primary key (node_id, peer_id));
 CREATE TABLE owners (id integer primary key autoincrement, name text, note text, stamp text, mark text);
 CREATE TABLE pets (id integer primary key autoincrement, owner_id integer, name text, note text, stamp text, mark text);
 CREATE TABLE toys (id integer primary key autoincrement, owner_id integer, name text, note text, stamp text, mark text);
@@ -63,14 +76,15 @@ CREATE TABLE audits (id integer primary key autoincrement, hook text, tbl text, 
 `
 
 const resetSQL = `
-DELETE FROM owners; DELETE FROM pets; DELETE FROM toys; DELETE FROM audits; DELETE FROM sqlite_sequence;
+DELETE FROM owners; DELETE FROM pets; DELETE FROM toys; DELETE FROM audits; DELETE FROM nodes; DELETE FROM node_peers; DELETE FROM sqlite_sequence;
+INSERT INTO nodes (id,name,note,stamp,mark) VALUES (1,'n1','n','','');
 INSERT INTO owners (id,name,note,stamp,mark) VALUES (1,'o1','n','',''),(2,'o2','n','',''),(3,'o3','n','','');
 INSERT INTO pets (id,owner_id,name,note,stamp,mark) VALUES (1,1,'p1','n','',''),(2,2,'p2','n','',''),(3,3,'p3','n','','');
 INSERT INTO toys (id,owner_id,name,note,stamp,mark) VALUES (1,1,'t1','n','',''),(2,1,'t2','n','',''),(3,2,'t3','n','',''),(4,2,'t4','n','',''),(5,3,'t5','n','',''),(6,3,'t6','n','','');
 INSERT INTO audits (id,hook,tbl,name) VALUES (1,'seed','seed','seed');
 `
 
-var allTables = []string{"owners", "pets", "toys", "audits"}
+var allTables = []string{"owners", "pets", "toys", "nodes", "node_peers", "audits"}
 
 // ---------------------------------------------------------------------------
 // Per-execution state, reachable from inside a hook through tx.Logger (the
@@ -104,6 +118,8 @@ type hookEv struct {
 	SetVal    string
 	Fail      *hookErr
 	Ident     string // resolved after the operation
+	PTable    string // phase table: Table, or "nodes:nested" for a Node reached through Peers
+	Batch     int    // batch of the record's root (batched creates)
 }
 
 func (e hookEv) before() bool { return len(e.Hook) > 6 && e.Hook[:6] == "Before" }
@@ -271,4 +287,32 @@ func (o *Toy) AfterDelete(tx *gorm.DB) error {
 }
 func (o *Toy) AfterFind(tx *gorm.DB) error {
 	return fire(tx, "toys", unsafe.Pointer(o), o.ID, o.Name, "AfterFind")
+}
+
+func (o *Node) BeforeSave(tx *gorm.DB) error {
+	return fire(tx, "nodes", unsafe.Pointer(o), o.ID, o.Name, "BeforeSave")
+}
+func (o *Node) BeforeCreate(tx *gorm.DB) error {
+	return fire(tx, "nodes", unsafe.Pointer(o), o.ID, o.Name, "BeforeCreate")
+}
+func (o *Node) AfterCreate(tx *gorm.DB) error {
+	return fire(tx, "nodes", unsafe.Pointer(o), o.ID, o.Name, "AfterCreate")
+}
+func (o *Node) BeforeUpdate(tx *gorm.DB) error {
+	return fire(tx, "nodes", unsafe.Pointer(o), o.ID, o.Name, "BeforeUpdate")
+}
+func (o *Node) AfterUpdate(tx *gorm.DB) error {
+	return fire(tx, "nodes", unsafe.Pointer(o), o.ID, o.Name, "AfterUpdate")
+}
+func (o *Node) AfterSave(tx *gorm.DB) error {
+	return fire(tx, "nodes", unsafe.Pointer(o), o.ID, o.Name, "AfterSave")
+}
+func (o *Node) BeforeDelete(tx *gorm.DB) error {
+	return fire(tx, "nodes", unsafe.Pointer(o), o.ID, o.Name, "BeforeDelete")
+}
+func (o *Node) AfterDelete(tx *gorm.DB) error {
+	return fire(tx, "nodes", unsafe.Pointer(o), o.ID, o.Name, "AfterDelete")
+}
+func (o *Node) AfterFind(tx *gorm.DB) error {
+	return fire(tx, "nodes", unsafe.Pointer(o), o.ID, o.Name, "AfterFind")
 }
